@@ -44,8 +44,8 @@ PROPS = {
               "Gx.C07.bodySlots_congr", "Gx.C07.rlStore_nonstiff", "Gx.C07.rlStore_stiff", "Gx.C07.hybrid_aliases", "Gx.checkScheme_sound"] + COMMON,
              ["Gx.Pins.scheme_aliases"],
              ns.make_run(ns.c07_case, 30, 1200, ns.scheme_cfg), ns.c07_case),
-    "C08": P("GotranxProofs.Properties.C08",
-             ["Gx.C08.seqCheck_pairwise", "Gx.C08.seqCheck_sound", "Gx.C08.sameDefinition_eq", "Gx.C08.sameDefinition_trans",
+    "C08": P("GotranxProofs.Properties.C08 GotranxProofs.KahnComplete",
+             ["Gx.Kahn.staticOrder_complete", "Gx.Kahn.staticOrder_correct", "Gx.C08.seqCheck_pairwise", "Gx.C08.seqCheck_sound", "Gx.C08.sameDefinition_eq", "Gx.C08.sameDefinition_trans",
               "Gx.C08.sameDefinition_symm"],
              ["Gx.Pins.grammar_blocks"],
              ts.c08_run, ts.c08_case),
@@ -106,8 +106,8 @@ PROPS = {
              ["Gx.C19.eval_rename", "Gx.C19.fv_rename", "Gx.C19.wellScoped_rename", "Gx.C19.capture_witness"],
              [],
              ids.c19_run, ids.c19_case),
-    "C20": P("GotranxProofs.Properties.C20",
-             ["Gx.C20.rhsMatrixLoop_sound", "Gx.C20.eval_subst", "Gx.C20.sigma_of_solution", "Gx.C20.states_order", "Gx.C20.loop_done",
+    "C20": P("GotranxProofs.Properties.C20 GotranxProofs.EndToEnd",
+             ["Gx.EndToEnd.sortedAssignments_total", "Gx.C20.rhsMatrixLoop_sound", "Gx.C20.eval_subst", "Gx.C20.sigma_of_solution", "Gx.C20.states_order", "Gx.C20.loop_done",
               "Gx.C20.jacobian_entry_correct", "Gx.C20.jacobian_shape", "Gx.diff_correct"],
              ["Gx.Pins.max_tries_shape"],
              ss.c20_run, ss.c20_case),
